@@ -20,6 +20,7 @@ TReset == /\ Is("reset")
           /\ snapJ' = <<>> /\ snapR' = revs' /\ ran' = {}
 TRun   == /\ Is("run") /\ RunStart(Ev.n)
 TRead  == /\ Is("read") /\ FileStart /\ Ev.f = f
+TReadFail == /\ Is("readfail") /\ ReadFail /\ Ev.f = f
 TExec  == /\ Is("exec") /\ Exec /\ Ev.f = f /\ Ev.tok = stmts[i]
           /\ (Ev.ok <=> budget' = budget)
 TWrite == /\ Is("write") /\ (WStart \/ WProg \/ Finish \/ Defer)
@@ -29,7 +30,7 @@ TEnd   == /\ Is("end") /\ pc = "idle" /\ Ev.cls = runErr /\ UNCHANGED vars
 TEdit  == /\ Is("edit") /\ Edit /\ dirv'[Ev.f] = Ev.toks
 TSilent == /\ CheckPartial /\ UNCHANGED l
 
-TStep == TReset \/ TRun \/ TRead \/ TExec \/ TWrite \/ TEnd \/ TEdit \/ TSilent
+TStep == TReset \/ TRun \/ TRead \/ TReadFail \/ TExec \/ TWrite \/ TEnd \/ TEdit \/ TSilent
 \* registers: 1 = set of specification states visited (projected), 2 = high-water mark of the trace cursor
 Visit(x) == IF x \in TLCGet(1) THEN TRUE ELSE TLCSet(1, TLCGet(1) \cup {x})
 TNext == /\ TStep
